@@ -6,6 +6,8 @@ import (
 	"context"
 	"flag"
 	"fmt"
+	"io"
+	"log/slog"
 	"math/rand"
 	"net"
 	"regexp"
@@ -34,6 +36,7 @@ type dest struct {
 
 type step struct {
 	Act string   `json:"a"`
+	Log string   `json:"log"` // level of the logger given to the handler: "info" (the handlers' default) | "debug"
 	D   dest     `json:"d"`
 	Ans [][]int  `json:"ans"`
 	Pos int      `json:"pos"`
@@ -282,6 +285,7 @@ func wireAddrs(d dest, ans [][]int) [][]int {
 type tcpReg struct {
 	ready   chan struct{}
 	timeout time.Duration
+	debug   bool
 	closed  chan string
 	probe   chan string
 }
@@ -428,6 +432,12 @@ func runBehave(args []string) {
 	replay := service.NewReplayCache(0)
 	auth := service.NewShadowsocksStreamAuthenticator(ciphers, &replay, nil, nil)
 	sh := service.NewStreamHandler(auth, 10*time.Second) // DEFAULT dialer: SetTargetDialer is never called
+	// the same, with a DEBUG-level logger (what the binary's -verbose flag gives the handlers)
+	debugLogger := func() *slog.Logger {
+		return slog.New(slog.NewTextHandler(io.Discard, &slog.HandlerOptions{Level: slog.LevelDebug}))
+	}
+	shDebug := service.NewStreamHandler(auth, 10*time.Second)
+	shDebug.SetLogger(debugLogger())
 	regs := &tcpRegs{m: map[int]*tcpReg{}}
 	pl, err := net.ListenTCP("tcp", &net.TCPAddr{IP: net.IPv4(127, 0, 0, 1)})
 	if err != nil {
@@ -449,7 +459,11 @@ func runBehave(args []string) {
 				}
 				ctx, cancel := context.WithTimeout(context.Background(), reg.timeout)
 				defer cancel()
-				sh.Handle(ctx, c, &tcpMetrics{reg})
+				if reg.debug {
+					shDebug.Handle(ctx, c, &tcpMetrics{reg})
+				} else {
+					sh.Handle(ctx, c, &tcpMetrics{reg})
+				}
 			}()
 		}
 	}()
@@ -477,6 +491,7 @@ func runBehave(args []string) {
 		reg := regs.get(lp)
 		defer regs.drop(lp)
 		reg.timeout = 8 * time.Second
+		reg.debug = st.Log == "debug"
 		if !hasSink(st.D, st.Ans) {
 			reg.timeout = time.Duration(*slowMs) * time.Millisecond
 		}
@@ -515,6 +530,9 @@ func runBehave(args []string) {
 		ss := &ssRec{ch: make(chan bool, 64)}
 		rec := &udpRec{ss: ss}
 		ph := service.NewPacketHandler(60*time.Second, ciphers, rec, ss) // DEFAULT validator
+		if pkts[0].Log == "debug" {
+			ph.SetLogger(debugLogger())
+		}
 		done := make(chan struct{})
 		go func() { ph.Handle(pc); close(done) }()
 		cl, err := net.ListenPacket("udp", "127.0.0.1:0")
@@ -618,7 +636,7 @@ func runBehave(args []string) {
 		id := i + 1
 		if results[i].tcp != nil {
 			ntcp++
-			tr.Emit(map[string]any{"ev": "Tcp", "id": id, "d": b[0].D, "ans": nonNil(b[0].Ans)})
+			tr.Emit(map[string]any{"ev": "Tcp", "id": id, "log": logOf(b[0]), "d": b[0].D, "ans": nonNil(b[0].Ans)})
 			cs := contacts[id]
 			sort.Slice(cs, func(x, y int) bool { return akey(cs[x]) < akey(cs[y]) })
 			for _, a := range cs {
@@ -628,7 +646,7 @@ func runBehave(args []string) {
 			tr.Emit(map[string]any{"ev": "Closed", "id": id, "status": results[i].tcp.status, "echo": results[i].tcp.echo})
 		} else if results[i].udp != nil {
 			nudp++
-			tr.Emit(map[string]any{"ev": "Udp", "id": id})
+			tr.Emit(map[string]any{"ev": "Udp", "id": id, "log": logOf(b[0])})
 			for j, p := range b {
 				npk++
 				tr.Emit(map[string]any{"ev": "Pkt", "id": id, "pos": p.Pos, "d": p.D, "ans": nonNil(p.Ans)})
@@ -670,6 +688,13 @@ func runBehave(args []string) {
 			"tcp_scenarios": ntcp, "udp_associations": nudp, "udp_datagrams": npk, "orphans": len(orphans) + strayUDP,
 		})
 	}
+}
+
+func logOf(s step) string {
+	if s.Log == "debug" {
+		return "debug"
+	}
+	return "info"
 }
 
 func nonNil(a [][]int) [][]int {
